@@ -886,15 +886,20 @@ class Plane(Generic[LTComponentT]):
 
 ROMAN_ONES = ["i", "x", "c", "m"]
 ROMAN_FIVES = ["v", "l", "d"]
+# Exclusive upper bound of format_int_roman: thousands are repeated "m", so the
+# length of the numeral grows with the value and has to be bounded.
+ROMAN_MAX = 1_000_000
 
 
 def format_int_roman(value: int) -> str:
     """Format a number as lowercase Roman numerals.
 
     There is no numeral above "m": thousands are written as repeated "m"
-    (4000 -> "mmmm"), the way PDF viewers label such pages.
+    (4000 -> "mmmm"), the way PDF viewers label such pages.  Values must be
+    below ROMAN_MAX so that the numeral stays short (at most 1000 "m" and
+    15 more characters); anything else is an AssertionError.
     """
-    assert value > 0
+    assert 0 < value < ROMAN_MAX
     thousands, value = divmod(value, 1000)
     result: List[str] = []
     index = 0
